@@ -456,6 +456,50 @@ func (x *c16) opPipe() {
 	x.rec.FP("pipe")
 }
 
+// opStalledReceiver: one side of a bound pair stops reading for 7-40 s while the other keeps
+// writing (the relay's writes meet TCP flow control: 4 KiB in flight): that is not a dead peer.
+// When the reader resumes, every byte arrives, in order, and the pair is still open.
+func (x *c16) opStalledReceiver() {
+	mc := x.liveConn(func(c *mConn) bool { return c.bound })
+	if mc == nil {
+		return
+	}
+	towardPeer := x.rng.Intn(2) == 0
+	reader, writer := mc.peerEnd, mc.data
+	if !towardPeer {
+		reader, writer = mc.data, mc.peerEnd
+	}
+	reader.Peer().SetCapacity(4096)
+	buf := make([]byte, pick(x.rng, []int{20000, 70000, 200000}))
+	x.rng.Read(buf)
+	_, _ = writer.Write(buf)
+	stall := pick(x.rng, []time.Duration{7 * time.Second, 12 * time.Second, 40 * time.Second})
+	x.w.Sleep(stall)
+	var got []byte
+	for i := 0; i < 1000; i++ {
+		b, _ := reader.ReadAvailable()
+		if len(b) == 0 {
+			break
+		}
+		got = append(got, b...)
+		x.w.Settle()
+	}
+	reader.Peer().SetCapacity(0)
+	dir := map[bool]string{true: "client-to-peer", false: "peer-to-client"}[towardPeer]
+	if !bytes.Equal(got, buf) {
+		x.rec.Violate("pipe-bytes", "stalled-receiver/"+dir, "the receiving side of connection %d did not read for %v while %d bytes were sent to it (4 KiB window): %d bytes arrived afterwards (first difference at %d)", mc.id, stall, len(buf), len(got), firstDiff(got, buf))
+
+		return
+	}
+	if mc.peerEnd.PeerClosedWrite() || mc.data.PeerClosedWrite() {
+		x.rec.Violate("pipe-close", "stalled-receiver/"+dir, "bound connection %d was closed by the server although neither side closed it (the receiver had only paused for %v)", mc.id, stall)
+
+		return
+	}
+	x.checkPipe(mc)
+	x.rec.FP("pipe/stalled-receiver/%s/%v", dir, stall)
+}
+
 // opLongLived: a bound pair stays in use for longer than an allocation lifetime (the owner keeps
 // its allocation refreshed): bytes still pass both ways, nothing times the pair out.
 func (x *c16) opLongLived() {
@@ -811,7 +855,11 @@ func runC16(t *testing.T, rng *rand.Rand, rec *sim.Rec, tier string, caseNo int)
 		case 6, 7, 8:
 			x.opBind()
 		case 9:
-			x.opPipe()
+			if x.rng.Intn(3) == 0 {
+				x.opStalledReceiver()
+			} else {
+				x.opPipe()
+			}
 		case 10:
 			if rng.Intn(3) == 0 {
 				// a peer that refused connections so far starts listening: an earlier failed Connect
